@@ -176,6 +176,29 @@ class Gen:
         self.main += ["op close h0", "op close h1", "op run NOWAIT", "op run NOWAIT", "op loop_close"]
         return self.cfg + self.on + self.main
 
+    def build_embedder(self):
+        """embedder style: I/O watchers started / changed outside uv_run (registrations pending in watcher_queue) with and
+        without armed timers, uv_backend_timeout() before and after the loop applied them"""
+        r = self.r
+        self.cfg += [f"config metrics {int(r.chance(1, 2))}", "config clock0 1000", f"config cblimit {r.range(8, 20)}"]
+        ios = [r.choice(["poll", "udp", "tcp", "pipe", "fs_event"]) for _ in range(r.range(1, 3))]
+        self.kinds += ["timer"] + ios
+        self.main += ["op init timer"] + [f"op init {k}" for k in ios]
+        if r.chance(3, 4): self.main.append(f"op start h0 {r.choice([0, 3, 17, 500, 2 ** 31, 2 ** 40])} {r.choice([0, 2])}")
+        for _ in range(r.range(2, 5)):
+            i = r.range(1, len(ios))
+            self.main.append("op " + r.choice([self.start_op(i), self.start_op(i), f"stop h{i}", f"unref h{i}", f"ref h{i}", f"unref h0", "ref h0"]))
+            if r.chance(2, 3): self.main.append("op backend_timeout")
+            if r.chance(1, 4): self.main.append("op run NOWAIT"); self.main.append("op backend_timeout")
+        if r.chance(1, 2):
+            i = r.range(1, len(ios))
+            self.on.append(f"on h0 0 {self.start_op(i)} ; backend_timeout ; stop h{i} ; backend_timeout")
+            self.main.append("op run ONCE")
+        for i in range(len(self.kinds)):
+            self.main.append(f"op close h{i}")
+        self.main += ["op backend_timeout", "op run DEFAULT", "op run DEFAULT", "op loop_close"]
+        return self.cfg + self.on + self.main
+
     def build_stop_then_run(self):
         """uv_stop() from a callback inside a ONCE / NOWAIT run, then further runs (all modes) with work outstanding"""
         r = self.r
@@ -201,9 +224,15 @@ class Gen:
             return self.build_udp_backlog()
         if self.bias != "C02" and r.chance(1, 12):
             return self.build_stop_then_run()
+        if self.bias == "C03" and r.chance(1, 8):
+            return self.build_embedder()
         self.cfg.append(f"config metrics {int(r.chance(1, 2))}")
         self.cfg.append(f"config clock0 {r.choice([1000, 1000, 5, 123456789])}")
         self.cfg.append(f"config cblimit {r.range(12, 30 + 10 * self.size)}")
+        if r.chance(1, 3 if self.bias == 'C03' else 8):
+            # completely full epoll batches (1024 entries): the follow-up non-blocking re-poll, up to the 48-round limit
+            ks = list(range(0, 60)) if r.chance(1, 4) else sorted({r.below(14) for _ in range(r.range(1, 5))})
+            self.cfg.append("config full " + " ".join(map(str, ks)))
         if r.chance(1, 3 if self.bias == 'C03' else 6):
             self.cfg.append("config eintr " + " ".join(f"{r.below(25)}:{r.below(15)}" for _ in range(r.range(1, 4))))
         n = r.range(2, 4 + self.size)
@@ -329,6 +358,7 @@ class Mon:
         truncated = False
         self.vclock = None
         self.stop_ops = 0         # uv_stop() calls since the previous uv_run() returned
+        self.wq_pending = None    # watcher_queue non-empty at the last uv_backend_timeout() call
         self.work_fifo = []       # submitted, not cancelled work requests in pool order
         self.eagain = any(l.startswith("env sendm") for l in log)
         pipes_bound = set()
@@ -578,6 +608,10 @@ class Mon:
             if l.startswith("res "):
                 # resources_released: after the close callback of an fs_event handle its kernel watch is gone unless
                 # another started fs_event handle still watches the (single) directory
+                mw = re.match(r"res wq=(\d)$", l)
+                if mw:
+                    self.wq_pending = mw.group(1) == "1"      # state at the uv_backend_timeout() call printed next
+                    i += 1; continue
                 ms = re.match(r"res h(\d+) sock=(\d+)$", l)
                 if ms:
                     # resources_released: a closed pipe leaves no socket file behind (uv_close unlinks at once)
@@ -712,7 +746,8 @@ class Mon:
             r["stop_limit"] = ("iter", cur)
 
     def on_top_cb(self, r, kind, num, i):
-        pass
+        if r.get("await_cb") and kind not in ("idle", "prepare", "check", "close", "timer"):
+            r["dispatched"] = True
 
     def expected_timeout(self, mode, o, obs_start, H, Rq, T):
         """(must_be_zero, value_if_not_zero, lenient)"""
@@ -729,6 +764,15 @@ class Mon:
 
     def check_backend_timeout(self, ret, o, H, Rq, T, i):
         zero, val, lenient = self.expected_timeout("DEFAULT", o, None, H, Rq, T)
+        wqp, self.wq_pending = self.wq_pending, None
+        if wqp:
+            self.stats["backend_timeout_wq_pending"] = self.stats.get("backend_timeout_wq_pending", 0) + 1
+            if ret != 0:
+                self.bad("C03", "backend-timeout-registrations-pending", f"uv_backend_timeout()={ret} while descriptor registrations "
+                         "are still waiting to be applied (watcher_queue not empty): must be 0", i)
+            return
+        if wqp is False and not zero and not lenient and ret != val:
+            self.bad("C03", "backend-timeout-api", f"uv_backend_timeout()={ret} with nothing waiting to be applied; nearest timer says {val}", i)
         if zero and ret != 0:
             self.bad("C03", "backend-timeout-api", f"uv_backend_timeout()={ret} while the loop must not block", i)
         elif not zero and ret not in (0, val) :
@@ -763,7 +807,7 @@ class Mon:
             zero, val, lenient = self.expected_timeout(r["mode"], o, r["obs_at_start"] if r["mode"] == "ONCE" else None, H, Rq, T)
             metrics = r.setdefault("metrics", None)
             want = 0 if zero else val
-            r["T"] = want; r["base"] = o["now"]; r["npoll_iter"] = 0; r["amb"] = amb
+            r["T"] = want; r["base"] = o["now"]; r["npoll_iter"] = 0; r["amb"] = amb; r["dispatched"] = False
             # the pending queue (fed only by udp sends here) is invisible to the monitor: a udp send callback
             # since the last poll, or one still owed, makes "0" acceptable as well
             r["lenient"] = lenient or amb or r["udp_since_poll"] or (r["mode"] == "ONCE" and r["udp_owed_at_start"])
@@ -788,6 +832,10 @@ class Mon:
                 if tmo == -1 or tmo > max(0, want - elapsed): ok = False
                 if self.metrics and k == 2 and r["prev_empty"] and not r["lenient"] and tmo != want - elapsed and r["first_tmo"] == 0 and want > 0:
                     ok = False
+        if k > 1 and r.get("dispatched") and tmo != 0:
+            self.bad("C03", "block-after-dispatch", f"poll #{k} of iteration {it} asked for timeout {tmo} although callbacks of an earlier "
+                     "batch of this iteration had already run (they may have called uv_stop, started timers or idle handles, closed handles): "
+                     "a follow-up poll must not block", i)
         if r["lenient"] and tmo == 0: ok = True; self.stats["timeout_lenient"] += 1
         if r.get("amb"): ok = True       # loop time at the decision cannot be reconstructed from the log
         if not ok:
@@ -798,6 +846,8 @@ class Mon:
         r["fresh"] = False; r["adv_since_poll"] = False; r["udp_since_poll"] = False
         r["prev_clock"] = clock
         r["prev_empty"] = res == [] or res == ["EINTR"]
+        r["await_cb"] = not r["prev_empty"]           # a callback right after this line was dispatched from this batch
+        if "FULL" in res: self.stats["full_batches"] = self.stats.get("full_batches", 0) + 1
         r["top"].append(("poll", it, None, i))
 
     def check_phases(self, r, i, complete):
